@@ -9,6 +9,7 @@ coordinate components.  round_pow2/ipow are kept opaque by declaring (not
 defining) their explicit specialisations in the harness unit.
 """
 from .. import harness, ir
+from . import hilbert_curve
 from ..common import Report, AnalysisBroken
 from ..harness import Harness
 
@@ -50,6 +51,7 @@ def make_view(s):
 def declare(rep):
     rep.rule("C14.d-compile", "Hilbert index / lookup harness compiles", floor=2)
     rep.rule("C14.d-max", "the one side length is round_pow2 of max(extent0, extent1) (D-ord over both orderings)", floor=2)
+    rep.rule("C14.d-curve", "the walk is a Hilbert curve for every k: quadrant digits and symmetries read off the loop body satisfy the induction (bijection, origin, corner fixpoint, facing exits/entries); levels run n/2..1", floor=2)
     rep.rule("C14.d-dep", "the position depends on the extents only through that side length, and on it and both coordinates", floor=2)
 
 
@@ -106,4 +108,26 @@ def run(rep, tier):
             rep.fail("C14.d-dep", inst, FILE, "the curve position depends on %s; expected the side length and both coordinates" % sorted(res))
         else:
             rep.ok("C14.d-dep", inst)
+        # the curve itself
+        sl = ir.Sym(fn, cut_loops=True)
+        if sl.unknown:
+            raise AnalysisBroken("C14.d %s: unmodelled instruction %s" % (inst, sl.unknown[0]["op"]))
+        rc = [c for c in sl.calls if c.name and c.name.startswith(RP2)]
+        if len(rc) != 1:
+            raise AnalysisBroken("C14.d %s: %d round_pow2 calls in the loop view" % (inst, len(rc)))
+        ncall = ('call', rc[0].name, rc[0].n)
+        if h.meta["kind"] == "static":
+            resv = sl.retval()
+        else:
+            sk = sl.opaque_calls("_ZN5verif4sink")
+            if len(sk) != 1:
+                rep.fail("C14.d-curve", inst, FILE, "expected one storage query, found %d" % len(sk))
+                continue
+            resv = sk[0].args[1]
+        bad, desc = hilbert_curve.check(sl, ('arg', h.role_index(('c', 0))), ('arg', h.role_index(('c', 1))), ncall, resv)
+        if bad:
+            rep.fail("C14.d-curve", inst, FILE, bad, data=desc)
+        else:
+            rep.ok("C14.d-curve", inst)
+            rep.extra.setdefault("hilbert_induction", {})[inst] = dict(desc, verdict="induction closed: bijective, starts at the origin, consecutive positions edge-adjacent, for every k")
     return hs
